@@ -19,6 +19,8 @@ only one of the two builds must belong to a class that cannot change outcomes:
  F family        each member of the inert family, evaluated under the same assumption, returns a constant and writes
                  nothing but the `comp` field; ArgScanner::check_next has all its effects behind comparisons with the
                  completion marker.
+ T live-pure     feature-only crate functions that run even with completion off (Doc::to_completion ..) cut strings only at char
+                 boundaries (C04 rules applied to exactly these functions): they cannot fail where the base build succeeds.
  M arm-agree     a cfg(not(feature)) arm (a statement only the base build has) assigns the constant the feature arm
                  evaluates to under the assumption.
 Does not decide: nothing further beyond the soundness of the summaries (trusted: this analyser, rustc's MIR)."""
